@@ -283,6 +283,9 @@ def run(ctx):
     nfr_ = _gc9.fringe_names(ctx)
     ctx.counted('escaped entries and literal names on a tree of non-ASCII and case-twin names', nfr_, nfr_ // 2, [{'entry': '\u0130stanbul.txt', 'flags': 'IGNORECASE'}])
     fringe.newline_match(ctx)
+    from props import glue
+    glue.wcmatch_every_flag(ctx)
+    glue.windows_path_case(ctx)
     return ctx.finish(RULE)
 
 
